@@ -491,13 +491,15 @@ impl Driver {
         #[cfg(compio_verif)]
         compio_log::verif::point("drv.poll", 0, timeout.map(|t| t.as_millis() as u64).unwrap_or(u64::MAX));
 
-        if self.poll_blocking() {
-            return Ok(());
-        }
+        // Completions of the thread pool are work for the caller: do not wait for
+        // more, but still submit and drain the completion queue. An external event
+        // loop has already consumed the readiness of the ring's descriptor before
+        // calling `poll`, so entries left in the queue would not be announced again.
+        let has_blocking = self.poll_blocking();
 
         trace!("start polling");
 
-        let need_wait = !self.notifier.reset();
+        let need_wait = !self.notifier.reset() && !has_blocking;
 
         self.arm_notifier()?;
 
